@@ -13,7 +13,8 @@
 //	           Pipeline, PipelineOnly, ConvPipeline (AddTask); Evict (UpdateTask -> Releasing); Unevict
 //	           (UpdateTask, or AddTask if the pod is not on the node); Unallocate, Unpipeline (RemoveTask);
 //	           Consolidate (ConsolidateSharedPodInfoToDifferentGPU); UnpipelineMoved (RemoveTask +
-//	           RestoreSharedPodInfoOnPreviousGPU); OpenSession, ConvertStart, Commit (no node call).
+//	           RestoreSharedPodInfoOnPreviousGPU); OpenSession, ConvertStart, Commit (no node call);
+//	           Place (directed scenarios: the real fit functions decide, see placeDirected).
 //	-random N  N seeded random sessions: a feasible snapshot followed by statements shaped like the
 //	           allocate action (Allocate/Pipeline, ConvertAllAllocatedToPipelined, Rollback, Commit,
 //	           failed bind) and like the solvers (Evict, pipeline-only placement incl. Unevict and
@@ -125,6 +126,7 @@ type world struct {
 	groups  map[string]bool
 	dec     int // 1: the real fit functions take the decision of the operation about to be executed
 	restore bool
+	nfresh  int
 }
 
 // decision re-takes a placement decision with the REAL code (actions/common.allocateTaskToNode on this
@@ -358,9 +360,68 @@ func (w *world) apply(o op) {
 		w.ent[o.P] = &entry{"Pipelined", cp(o.Grp), 0}
 		o.St = "Pipelined"
 		w.call(o, "Consolidate")
+	case "Place":
+		w.placeDirected(o)
 	case "OpenSession", "ConvertStart", "Commit", "Init":
 	default:
 		panic("unknown op " + o.Op)
+	}
+}
+
+// placeDirected (directed scenarios): the REAL code decides how a pending pod is placed on the node, as
+// actions/common.allocateTaskToNode does. o.St = "A" (allocate action) | "B" (solver: pipeline only);
+// o.Grp = the order in which the fitting GPUs are offered ("*" = a whole GPU, else a group name; the
+// order is up to the GpuOrderFn plugins). New groups are named f1, f2, ... The decision is then
+// executed as an Allocate / Pipeline / PipelineOnly operation.
+func (w *world) placeDirected(o op) {
+	t, ni := w.tasks[o.P], w.ni
+	pipelineOnly := o.St == "B"
+	if _, on := ni.PodInfos[pod_info.PodKey(t.Pod)]; on || !ni.IsTaskAllocatableOnReleasingOrIdle(t) {
+		return
+	}
+	nominate := "Pipeline"
+	if pipelineOnly {
+		nominate = "PipelineOnly"
+	}
+	if !(t.IsFractionRequest() || t.IsMemoryRequest()) {
+		if !pipelineOnly && ni.IsTaskAllocatable(t) {
+			w.apply(op{"Allocate", o.P, "Allocated", []string{}})
+		} else {
+			w.apply(op{nominate, o.P, "Pipelined", []string{}})
+		}
+		return
+	}
+	slots := 0
+	if ni.Idle.GPUs() > 0 || ni.Releasing.GPUs() > 0 {
+		slots = int(ni.Idle.GPUs()) + int(ni.Releasing.GPUs())
+	}
+	var list []string
+	for _, g := range o.Grp {
+		if g == "*" {
+			if slots > 0 {
+				list = append(list, pod_info.WholeGpuIndicator)
+				slots--
+			}
+		} else if ni.IsTaskFitOnGpuGroup(t.ResReq, g) {
+			list = append(list, g)
+		}
+	}
+	sel := gpu_sharing.GetNodePreferableGpuForSharing(list, ni, t, pipelineOnly)
+	if sel == nil {
+		return
+	}
+	var grp []string
+	for _, g := range sel.Groups {
+		if _, exists := ni.UsedSharedGPUsMemory[g]; !exists {
+			w.nfresh++
+			g = "f" + strconv.Itoa(w.nfresh)
+		}
+		grp = append(grp, g)
+	}
+	if pipelineOnly || sel.IsReleasing {
+		w.apply(op{nominate, o.P, "Pipelined", grp})
+	} else {
+		w.apply(op{"Allocate", o.P, "Allocated", grp})
 	}
 }
 
